@@ -315,3 +315,71 @@ Section Projection.
     nth_error ts i = Some (Ret a) -> nth_error (outcomes A ts) i = Some (Some a).
   Proof. intros H. unfold outcomes. rewrite nth_error_map, H. reflexivity. Qed.
 End Projection.
+
+(* ------------------------------------------------------------------ *)
+(* The gate-granularity runner (what the harness replays) is an instance of [run]: every
+   gate schedule expands to a single-effect schedule.  So every theorem about [run] for ALL
+   schedules holds for [run_gated]. *)
+Section GatedIsRun.
+  Variable K : Type.
+  Variable kh : forall e : eff, K -> K * resp e * list kev.
+  Variable dresp : forall e : eff, resp e.
+  Variable A : Type.
+
+  Notation run_sched := (run_sched K kh dresp A).
+  Notation step_thread := (step_thread K kh dresp A).
+
+  Lemma run_sched_app a : forall b ts s,
+    run_sched (a ++ b) ts s = run_sched b (fst (run_sched a ts s)) (snd (run_sched a ts s)).
+  Proof.
+    induction a as [|i t IH]; intros b ts s; simpl; auto.
+    destruct (step_thread i ts s) as [[ts' s']|]; apply IH.
+  Qed.
+
+  Lemma drain_ungated_as_sched i p : forall ts s, nth_error ts i = Some p ->
+    exists n, drain_ungated K kh dresp A i p ts s = run_sched (repeat i n) ts s.
+  Proof.
+    induction p as [a|e k IH]; intros ts s Hn; simpl.
+    - exists 0. reflexivity.
+    - destruct (gated e); [exists 0; reflexivity|].
+      pose proof (step_thread_some K kh dresp A i ts s e k Hn) as St.
+      destruct (cstep K kh dresp i e s) as [s' r] eqn:E. simpl in St.
+      destruct (IH r (set_nth i (k r) ts) s') as [n Hn'].
+      { apply nth_error_set_nth_eq. eapply nth_error_lt; eauto. }
+      exists (S n). simpl. rewrite St. exact Hn'.
+  Qed.
+
+  Lemma step_gate_as_sched i ts s :
+    exists n, match step_gate K kh dresp A i ts s with Some r => r | None => (ts, s) end
+              = run_sched (repeat i n) ts s.
+  Proof.
+    unfold Conc.step_gate. destruct (nth_error ts i) as [[a|e k]|] eqn:E.
+    - exists 0. reflexivity.
+    - pose proof (step_thread_some K kh dresp A i ts s e k E) as St.
+      destruct (cstep K kh dresp i e s) as [s' r] eqn:E1. simpl in St.
+      destruct (drain_ungated_as_sched i (k r) (set_nth i (k r) ts) s') as [n Hn].
+      { apply nth_error_set_nth_eq. eapply nth_error_lt; eauto. }
+      exists (S n). simpl. rewrite St. exact Hn.
+    - exists 0. reflexivity.
+  Qed.
+
+  Lemma run_gates_as_sched sch : forall ts s,
+    exists sch', run_gates K kh dresp A sch ts s = run_sched sch' ts s.
+  Proof.
+    induction sch as [|i t IH]; intros ts s; simpl.
+    - exists []. reflexivity.
+    - destruct (step_gate_as_sched i ts s) as [n Hn].
+      destruct (step_gate K kh dresp A i ts s) as [[ts' s']|].
+      + destruct (IH ts' s') as [sch' Hs]. exists (repeat i n ++ sch')%list.
+        rewrite run_sched_app, <- Hn. simpl. exact Hs.
+      + destruct (IH ts s) as [sch' Hs]. exists (repeat i n ++ sch')%list.
+        rewrite run_sched_app, <- Hn. simpl. exact Hs.
+  Qed.
+
+  Theorem run_gated_is_run ts sch s :
+    exists sch', run_gated K kh dresp A ts sch s = run K kh dresp A ts sch' s.
+  Proof.
+    destruct (run_gates_as_sched sch ts s) as [sch' H]. exists sch'.
+    unfold Conc.run_gated, Conc.run. rewrite H. reflexivity.
+  Qed.
+End GatedIsRun.
